@@ -5,7 +5,7 @@ schedules and faults; every impl trace must be accepted by System.step (coqc vm_
 Coq monitors; Python oracles judge impl's trace and final state directly (harness/syscheck.py)."""
 from harness import core, syscheck
 
-MODES = {'plain': 5, 'appendtimeout': 2, 'kill': 1, 'sbatchfail': 1, 'timeout': 1, 'hooks': 1, 'racing_try': 1, 'resubmit': 3, 'scanerror': 2}
+MODES = {'plain': 5, 'appendtimeout': 2, 'kill': 1, 'sbatchfail': 1, 'timeout': 1, 'hooks': 1, 'racing_try': 1, 'resubmit': 3, 'scanerror': 3}
 
 
 def run(chk):
